@@ -39,8 +39,9 @@ CHECKS = {
         note="Trusted: Coq kernel + vm_compute, model Scalars.v/Fround.v, harness, emitter. Theorems closed under the global context. Floats: c05_f64_total / c05_f32_total "
              "(the three numeric kinds are accepted without any call, everything else is one IncorrectValueKind); integers -> f64 / f32 are the IEEE conversion: exact up to 53 / 24 significant bits "
              "(c05_f64_of_int_exact, c05_f32_of_int_exact), otherwise q * 2^(size-53) with q the nearest integer to m / 2^(size-53), ties to even, carry into the exponent "
-             "(c05_f64_of_int_rounded, c05_f32_of_int_rounded, c05_round_even_nearest), sign bit for negatives (c05_float_of_negative) - all in integer arithmetic, no reals. Partial: f64 -> f32 "
-             "narrowing and NaN canonicalisation have no theorem (bit-exact three-way comparison implementation / Fround / Flocq binary_normalize on every run). "
+             "(c05_f64_of_int_rounded, c05_f32_of_int_rounded, c05_round_even_nearest), sign bit for negatives (c05_float_of_negative); f64 -> f32 of a finite normal f64 whose result is normal or overflows (c05_f32_of_f64_normal, c05_f32_of_f64_unfold) - all in "
+             "integer arithmetic, no reals. Partial: f64 -> f32 results in the f32 subnormal range, NaN canonicalisation and infinities have no theorem (bit-exact three-way comparison "
+             "implementation / Fround / Flocq binary_normalize on every run). "
              "usize = 64 bits assumed."),
     "C13": dict(
         text="Proof: for every document serde_json can hold (wf_json: u64 / negative i64 / finite f64, sorted unique keys), at any depth and size: Deserr for "
